@@ -203,12 +203,29 @@ def check_flags(rep, repo):
         rep.check(ok, 'C09.R3', w, 'documented solver flag %s (%s%s)' % (flag, action, ', int' if typ else ''), got=repr(a), construct='flag %s declaration' % flag)
     # numagents is compared with 2 and 3
     f = repo.function('_import_from_file', repo.rel('solver', 'fileIO.py'))
-    consts = {n.comparators[0].value for n in ast.walk(f.node) if isinstance(n, ast.Compare) and len(n.ops) == 1 and isinstance(n.ops[0], ast.Eq)
-              and isinstance(n.comparators[0], ast.Constant) and 'NUMAGENTS' in ast.unparse(n.left)}
+    consts = set()
     for fn in repo.all_funcs():
-        if fn.relpath == f.relpath and fn is not f:
-            consts |= {n.comparators[0].value for n in ast.walk(fn.node) if isinstance(n, ast.Compare) and len(n.ops) == 1 and isinstance(n.ops[0], ast.Eq)
-                       and isinstance(n.comparators[0], ast.Constant) and isinstance(n.comparators[0].value, int) and ('num_agents' in ast.unparse(n.left) or 'NUMAGENTS' in ast.unparse(n.left))}
+        if fn.relpath != f.relpath:
+            continue
+        # names that hold the number of agents: bound from an expression mentioning NUMAGENTS, or a parameter called num_agents
+        aliases = {a for a in fn.params if 'num' in a and 'agent' in a}
+        for n in ast.walk(fn.node):
+            if isinstance(n, ast.Assign) and len(n.targets) == 1 and isinstance(n.targets[0], ast.Name) and 'NUMAGENTS' in ast.unparse(n.value):
+                aliases.add(n.targets[0].id)
+        def is_na(e):
+            return 'NUMAGENTS' in ast.unparse(e) or (isinstance(e, ast.Name) and e.id in aliases)
+        for n in ast.walk(fn.node):
+            if isinstance(n, ast.Compare) and len(n.ops) == 1 and isinstance(n.ops[0], (ast.Eq, ast.NotEq)):
+                l, r = n.left, n.comparators[0]
+                for a, b in ((l, r), (r, l)):
+                    if is_na(a) and isinstance(b, ast.Constant) and isinstance(b.value, int):
+                        consts.add(b.value)
+            if isinstance(n, ast.Compare) and len(n.ops) == 1 and isinstance(n.ops[0], ast.In) and is_na(n.left) and isinstance(n.comparators[0], (ast.Tuple, ast.List, ast.Set)):
+                consts |= {e.value for e in n.comparators[0].elts if isinstance(e, ast.Constant)}
+            if isinstance(n, ast.Match) and is_na(n.subject):
+                for c in n.cases:
+                    if isinstance(c.pattern, ast.MatchValue) and isinstance(c.pattern.value, ast.Constant):
+                        consts.add(c.pattern.value.value)
     rep.check({2, 3} <= consts, 'C09.R3', f.where, '-na 2 selects the 2-agent format and -na 3 the 3-agent format', got=sorted(consts), want=[2, 3], construct='numagents values %s' % sorted(consts))
 
 
